@@ -348,19 +348,59 @@ async fn http1_conn(mut stream: SimStream, col: Arc<Collector>, host: HostCfg, c
                 }
             }
         };
-        // real collectors answer with a body (an ExportServiceResponse / an error text) more often than not
-        let body: &str = if status == 204 || !col.sched.lock().choices.chance(2, 3) {
-            ""
-        } else if status == 200 {
-            "{\"partialSuccess\":{}}"
+        // real collectors answer with a body (an ExportServiceResponse / an error text) more often than not; error texts
+        // come in every length and language, and protobuf collectors answer with a binary Status message
+        let body: Vec<u8> = if status == 204 {
+            Vec::new()
         } else {
-            "simulated collector failure: try again later"
+            let (kind, shift, reps) = {
+                let mut g = col.sched.lock();
+                (g.choices.weighted(&[4, 6, 1, 2, 1]), g.choices.choose(4) as usize, 3 + g.choices.choose(12) as usize)
+            };
+            match kind {
+                0 => Vec::new(),
+                1 if status == 200 => b"{\"partialSuccess\":{}}".to_vec(),
+                1 => b"simulated collector failure: try again later".to_vec(),
+                2 => {
+                    let mut b = b"{\"code\":14,\"message\":\"".to_vec();
+                    for _ in 0..reps * 3 {
+                        b.extend_from_slice(b"the simulated collector is overloaded, try again later; ");
+                    }
+                    b.extend_from_slice(b"\"}");
+                    b
+                }
+                3 => {
+                    // multi-byte characters at every alignment
+                    let mut b = b"xyz"[..shift.min(3)].to_vec();
+                    for _ in 0..reps * 2 {
+                        b.extend_from_slice("d\u{e9}faillance simul\u{e9}e du collecteur \u{2014} r\u{e9}essayez plus tard \u{1f6a7}; ".as_bytes());
+                    }
+                    b
+                }
+                _ => {
+                    // google.rpc.Status { code = 14, message = <bytes that are no UTF-8> }
+                    let mut b = vec![0x08, 14, 0x12, 0xff, 0x02];
+                    for i in 0..(reps * 40) {
+                        b.push(0x80 | (i as u8 & 0x7f));
+                    }
+                    b
+                }
+            }
         };
         if !body.is_empty() {
             *col.fired.lock().unwrap().entry("response_with_body").or_insert(0) += 1;
         }
-        let resp = format!("HTTP/1.1 {status} Sim\r\ncontent-type: application/json\r\ncontent-length: {}\r\n\r\n{body}", body.len());
-        let ok = stream.write_all(resp.as_bytes()).await.is_ok();
+        if body.len() > 256 {
+            *col.fired.lock().unwrap().entry("response_with_long_body").or_insert(0) += 1;
+            if status != 200 {
+                // a client that does not read an error body to its end closes the connection under it and spends one
+                // more attempt finding that out: such a rejection costs two of the consecutive failures a signal may see
+                col.count_failure(host.signal);
+            }
+        }
+        let mut resp = format!("HTTP/1.1 {status} Sim\r\ncontent-type: application/json\r\ncontent-length: {}\r\n\r\n", body.len()).into_bytes();
+        resp.extend_from_slice(&body);
+        let ok = stream.write_all(&resp).await.is_ok();
         entry.acked = ok && (status == 200 || status == 204);
         let acked_now = entry.acked;
         entry.done_at = Some(col.sched.now());
